@@ -294,7 +294,25 @@ func (m *mon) badAck() {
 			m.deliverAck(p, &msg, rel, "conflicting-after-ack", true)
 		}
 	case p.Received && p.AckWritten != nil:
-		switch s.Rng.Intn(4) {
+		switch s.Rng.Intn(6) {
+		case 4, 5: // genuine ack bytes and proof for this sequence, but a packet that differs from the committed one in a non-path field
+			q := p.Packet
+			switch s.Rng.Intn(4) {
+			case 0:
+				q.Sender = pkt.LowerHex(s.RandUser().Eth) + "00"
+			case 1:
+				q.TransferData = append(append([]byte{}, q.TransferData...), 0)
+			case 2:
+				q.CallbackAddress = pkt.LowerHex(s.RandUser().Eth)
+			case 3:
+				q.FeeOption += 7
+			}
+			if bz, err := q.ABIPack(); err == nil {
+				if msg := fresh(p.AckWritten); msg != nil {
+					msg.Packet = bz
+					m.deliverAck(p, msg, rel, "real-ack-and-proof-for-altered-packet", true)
+				}
+			}
 		case 0: // opposite outcome with the proof of the real ack
 			other := uint64(0)
 			msgTxt := ""
